@@ -264,7 +264,7 @@ def huge_bond_case(ctx, idx, rng):
     arrays beyond 2**19 entries (anything that switches to a blocked contraction above a size threshold). Norm, energy and charges through transfer matrices."""
     from .. import large
     two = bool(idx % 4 == 3)
-    name, L, Dmax = 'fermi', 10, int(rng.integers(150, 171))
+    name, L, Dmax = 'fermi', 10, (200 if idx % 4 == 0 else int(rng.integers(150, 171)))          # the first case of every tier uses the largest cap (local tensors beyond 2**19 entries)
     if two:
         L, Dmax = 8, int(rng.integers(76, 90))
     H = gen.model(name, L, gen.generic_params(rng))
